@@ -13,7 +13,8 @@ LEVEL = "exploration"
 RULE = ("real SerialGateway / TCPGateway with real poll thread, reader thread and connect thread under the baton scheduler; scenario A: "
         "a controller thread queues uniquely tagged commands while a second thread injects one of {read error, user disconnect(), "
         "stop(), read error followed by immediate reconnect, peer close/reset (TCP)}; scenario B: 2-4 producer threads queue tagged "
-        "commands while the link stays up. Schedules: PCT-style (1-3 forced pre-emptions) or random-walk pre-emption at source-line "
+        "commands while the link stays up; scenario F(lood): the pump is stalled 1.5 s inside one write while three producers queue "
+        "120-390 commands (all must still go out exactly once, in queue order). Schedules: PCT-style (1-3 forced pre-emptions) or random-walk pre-emption at source-line "
         "events inside the window {Transport.send, SyncTransport.send, ReaderThread.write/close/stop/run, TCPTransport.write/run, "
         "connection_lost, _connection_lost, connection_made, disconnect, sync_connect, _poll_queue, add_job, run_job}. Oracle: the poll "
         "thread never dies; every command is written at most once (A) / exactly once in queue order (B), in one piece, to a connection "
@@ -24,7 +25,7 @@ TIERS = {
     "quick": {"runs": 3500, "max_wall": 240, "minimise_s": 25, "chunk": 100},
     "thorough": {"runs": 150000, "max_wall": 3000, "minimise_s": 60, "chunk": 500},
 }
-FAULT_KINDS = ["read error", "user disconnect", "stop", "read error + reconnect", "peer close (tcp)", "peer reset (tcp)", "slow sendall (send buffer nearly full, tcp)"]
+FAULT_KINDS = ["read error", "user disconnect", "stop", "read error + reconnect", "peer close (tcp)", "peer reset (tcp)", "slow sendall (send buffer nearly full, tcp)", "write that stalls while hundreds of commands pile up"]
 REAL = ["mysensors.transport", "mysensors.task (SyncTasks._poll_queue)", "mysensors.gateway_serial.sync_connect", "mysensors.gateway_tcp (TCPTransport, sync_connect)",
         "serial.threaded.ReaderThread", "handlers for the commands"]
 STUBS = ["thread scheduling (baton + sys.settrace line pre-emption)", "threading.Lock/Event (SimLock/SimEvent)", "serial port / socket / select", "clock"]
